@@ -250,7 +250,7 @@ def r4(ctx):
         for fbi, ft in nr.calls():
             if callee_matches(ft, r"Rng::try_fill$|Rng::fill$|RngCore::(try_)?fill_bytes$") and len(ft.args) >= 2 and ft.args[1].place is not None and ft.args[1].place.local in al:
                 fills.append(fbi)
-    rule.check(bool(fills) and must_pass(nr, [bi], via_blocks=fills) and "to_vec" in fmt_short(p.operand(t.args[3])),
+    rule.check(bool(fills) and must_pass(nr, [bi], via_blocks=fills) and "to_vec" in fmt(p.operand(t.args[3])),
                "random packet body is a buffer filled by the RNG on every path", "random|body",
                "Packet::new_random builds its body without filling it from the RNG", loc=nr.loc(t.line))
     return rule
